@@ -767,6 +767,74 @@ pub fn run(ctx: &Ctx) {
         }
     }
 
+    // ---- the same with EXPLICIT user configurations (the per-lint overlay of the curated defaults
+    //      must leave the user's configuration as it was), and harper-ls's DocumentState, whose
+    //      generate_diagnostics / generate_code_actions do the same overlay --------------------------
+    {
+        let texts: Vec<&str> = SHARED.iter().cloned().take(if thorough { 12 } else { 5 }).collect();
+        let cfgs = [r#"{"SpellCheck": false, "SentenceCapitalization": false}"#, r#"{"SpelledNumbers": true, "BoringWords": true, "AnA": false}"#, r#"{"SpellCheck": null, "RepeatedWords": false, "NoSuchRule": true}"#];
+        for cfg in cfgs {
+            let r = guarded(|| {
+                let mut long = harper_wasm::Linter::new(harper_wasm::Dialect::American);
+                long.set_lint_config_from_json(cfg.to_string()).ok()?;
+                for (i, t) in texts.iter().enumerate() {
+                    for lang in [harper_wasm::Language::Plain, harper_wasm::Language::Markdown] {
+                        let a: Vec<String> = long.lint(t.to_string(), lang).iter().map(|l| l.to_json()).collect();
+                        let mut f = harper_wasm::Linter::new(harper_wasm::Dialect::American);
+                        f.set_lint_config_from_json(cfg.to_string()).ok()?;
+                        let b: Vec<String> = f.lint(t.to_string(), lang).iter().map(|l| l.to_json()).collect();
+                        if a != b {
+                            return Some((t.to_string(), format!("{:?}", lang), i, a.len(), b.len()));
+                        }
+                    }
+                }
+                None
+            });
+            sess.o();
+            sess.count("wasm-linter:configured:long-lived-vs-new");
+            match r {
+                Ok(None) => {}
+                Ok(Some((t, lang, i, a, b))) => sess.fail("wasm-history-dependent", format!("harper_wasm::Linter configured with {}: document #{} gets {} lints from the long-lived instance, {} from a new one with the same configuration ({})", cfg, i, a, b, lang), json!({"kind": "wasm", "text": t, "lang": lang, "config": cfg}), None),
+                Err(e) => sess.sample(json!({"wasm linter unavailable natively": e})),
+            }
+            // harper-ls: one DocumentState, diagnostics / code actions / diagnostics …
+            let r = guarded(|| {
+                use crate::config::{CodeActionConfig, Config, DiagnosticSeverity};
+                use crate::document_state::DocumentState;
+                use tower_lsp::lsp_types::{Position, Range, Url};
+                let lcfg: harper_core::linting::LintGroupConfig = serde_json::from_str(cfg).ok()?;
+                let _ = Config::default();
+                let mk = |t: &str| {
+                    let linter = harper_core::linting::LintGroup::new_curated(dict.clone(), Dialect::American).with_lint_config(lcfg.clone());
+                    DocumentState { linter, document: harper_core::Document::new_plain_english(t, &*dict), url: Url::parse("file:///c05.txt").unwrap(), ..Default::default() }
+                };
+                let mut long = mk(texts[0]);
+                for (i, t) in texts.iter().enumerate() {
+                    long.document = harper_core::Document::new_plain_english(t, &*dict);
+                    let a = serde_json::to_string(&long.generate_diagnostics(DiagnosticSeverity::Hint)).ok()?;
+                    let b = serde_json::to_string(&mk(t).generate_diagnostics(DiagnosticSeverity::Hint)).ok()?;
+                    if a != b {
+                        return Some((t.to_string(), i, "diagnostics"));
+                    }
+                    let req = Range { start: Position { line: 0, character: 3 }, end: Position { line: 0, character: 4 } };
+                    let _ = long.generate_code_actions(req, &CodeActionConfig::default());
+                    let a2 = serde_json::to_string(&long.generate_diagnostics(DiagnosticSeverity::Hint)).ok()?;
+                    if a2 != b {
+                        return Some((t.to_string(), i, "diagnostics after a code-action request"));
+                    }
+                }
+                None
+            });
+            sess.o();
+            sess.count("ls-document-state:configured:long-lived-vs-new");
+            match r {
+                Ok(None) => {}
+                Ok(Some((t, i, what))) => sess.fail("ls-history-dependent", format!("harper-ls DocumentState configured with {}: document #{}: {} differ from those of a new DocumentState with the same configuration", cfg, i, what), json!({"kind": "ls", "text": t, "config": cfg}), None),
+                Err(e) => sess.sample(json!({"DocumentState stream failed": e})),
+            }
+        }
+    }
+
     // ---- processes: a second process lints the same documents ----------------------------------
     {
         let docs = process_docs();
@@ -789,7 +857,7 @@ pub fn run(ctx: &Ctx) {
     }
 
     sess.finish(
-        "corpus histories (same characters plain then Markdown and back; Teh/teh/TEH; one clause at different offsets with configuration toggles; unknown keys); random histories of 5–14 ops over a working set of 2–5 documents (rule-test sentences, Markdown-decorated copies, shared clauses; plain and Markdown), every lint compared with a brand-new group and predicted by the model from per-rule tables; capacity pressure (cap+5% distinct chunks); SpellCheck's word cache (long-lived vs new, K on the word sequence); 8 threads with per-thread groups in different orders; harper_wasm::Linter long-lived vs new; a second process. Non-trivial = a history with lints and a repeated document or ≥2 configuration ops.",
+        "corpus histories (same characters plain then Markdown and back; Teh/teh/TEH; one clause at different offsets with configuration toggles; unknown keys); random histories of 5–14 ops over a working set of 2–5 documents (rule-test sentences, Markdown-decorated copies, shared clauses; plain and Markdown), every lint compared with a brand-new group and predicted by the model from per-rule tables; capacity pressure (cap+5% distinct chunks); SpellCheck's word cache (long-lived vs new, K on the word sequence); 8 threads with per-thread groups in different orders; harper_wasm::Linter long-lived vs new, also under three explicit user configurations; harper-ls DocumentState (diagnostics / code actions / diagnostics) long-lived vs new under the same configurations; a second process. Non-trivial = a history with lints and a repeated document or ≥2 configuration ops.",
         false,
         json!({"chunk_cache_capacity": cap, "chunk_cache_capacity_from_source": cap_ok, "word_cache_capacity": wcap, "word_cache_capacity_from_source": wcap_ok, "rules": all.len()}),
     );
